@@ -307,7 +307,10 @@ def decide(rep, prog):
                       function='parseQuery', file=fnf)
             frees = [e for e, _ in effects(st, 'free') if e[1] == 'SEEN']
             d = st.dom(SEEN_COUNT)
-            rep.check(bool(frees) or d.hi == 0, 'R07.f', 'query|frees-nodes', 'reported observations are not released', function='parseQuery', file=fnf)
+            # (a path on which the list was found empty although the count is not 0 contradicts count = list length, the
+            #  heap-shape invariant not proved here: nothing to release there - tolerated as in R07.g / R07.i)
+            entry_head = st.canon(('pset', ('in', 'st', fs.soff('see_list')), (ZERO, ('ptr', 'SEEN', ZERO))))
+            rep.check(bool(frees) or d.hi == 0 or entry_head == ZERO, 'R07.f', 'query|frees-nodes', 'reported observations are not released', function='parseQuery', file=fnf)
         else:
             rep.fail('R07.e', 'query|capacity-unchecked', 'a path reports observations without comparing their number with the frame capacity', function='parseQuery', file=fnf)
     if nq == 0:
